@@ -118,6 +118,14 @@ func (s spec) xid() [4]byte {
 	return [4]byte{0xc1, byte(s.idx >> 16), byte(s.idx >> 8), byte(s.idx)}
 }
 
+// hops: a relayed packet (giaddr set) has made one hop.
+func (s spec) hops() uint8 {
+	if s.gi == giSet {
+		return 1
+	}
+	return 0
+}
+
 func (s spec) inputType() (uint8, bool) {
 	switch opcodes[s.op] {
 	case 1:
@@ -134,7 +142,7 @@ func (s spec) lib() *dhcpv4.DHCPv4 {
 		OpCode:        dhcpv4.OpcodeType(opcodes[s.op]),
 		HWType:        iana.HWType(htypes[s.ht]),
 		ClientHWAddr:  net.HardwareAddr(hwBytes(hlens[s.hl])),
-		HopCount:      1,
+		HopCount:      s.hops(),
 		TransactionID: dhcpv4.TransactionID(s.xid()),
 		NumSeconds:    3,
 		Flags:         flagsV[s.fl],
@@ -165,12 +173,15 @@ func (s spec) lib() *dhcpv4.DHCPv4 {
 	if t, ok := s.inputType(); ok {
 		p.Options[53] = []byte{t}
 	}
+	if len(p.Options) == 0 {
+		p.Options = nil // a hand-made packet without any option: nil map
+	}
 	return p
 }
 
 // ref builds the same input as a reference value (independently of lib()).
 func (s spec) ref() *ref.Packet {
-	p := &ref.Packet{Op: opcodes[s.op], HType: htypes[s.ht], Hops: 1, Xid: s.xid(), Secs: 3, Flags: flagsV[s.fl], SI: addrSI,
+	p := &ref.Packet{Op: opcodes[s.op], HType: htypes[s.ht], Hops: s.hops(), Xid: s.xid(), Secs: 3, Flags: flagsV[s.fl], SI: addrSI,
 		CHAddr: hwBytes(hlens[s.hl]), Opts: map[uint8][]byte{}}
 	if s.ci == 1 {
 		p.CI = addrCI
@@ -679,6 +690,7 @@ func goMod(m ref.Mod) string {
 // goTest renders a plain test (imports: encoding/hex, net, testing, dhcpv4, iana).
 func goTest(k kase, ms []ref.Mod) string {
 	var b strings.Builder
+	b.WriteString("// package dhcpv4_test; imports: encoding/hex, net, testing, github.com/insomniacslk/dhcp/dhcpv4, github.com/insomniacslk/dhcp/iana\n")
 	b.WriteString("func TestReplayC15(t *testing.T) {\n")
 	b.WriteString("\th := func(s string) []byte { b, _ := hex.DecodeString(s); return b }; _ = h\n")
 	var margs string
@@ -790,7 +802,7 @@ func Run(c *fw.Ctx) {
 	c.Scope("a:builders-on-input-product", "builders", "NewReplyFromRequest NewRequestFromOffer NewRenewFromAck NewReleaseFromACK",
 		"opcode", "1 2 0 7", "flags", "0000 8000 ffff 0001", "giaddr", "nil 0.0.0.0 10.0.0.254", "hwtype", "1 6", "hwaddr_len", "6 0 16",
 		"options_82_61_54_55_50_states", "absent, empty value, 1 byte, typical, 255 bytes", "option_combinations", optScope,
-		"yiaddr", "0.0.0.0 10.0.0.100", "ciaddr", "0.0.0.0 10.0.0.50", "siaddr", "10.9.9.9 (differs from option 54)",
+		"yiaddr", "0.0.0.0 10.0.0.100", "ciaddr", "0.0.0.0 10.0.0.50", "siaddr", "10.9.9.9 (differs from option 54)", "hops", "1 when giaddr is set, else 0", "option_53", "DISCOVER for opcode 1, OFFER for opcode 2, none for 0 and 7 (hand-built packet without any option has a nil Options map)",
 		"input_forms", "hand-built struct; ToBytes/FromBytes trip of it (skipped for giaddr=nil, same decoded packet as 0.0.0.0)",
 		"inputs", selected.load(), "builder_results_compared", compared.load())
 	ord := total * 8
